@@ -1,6 +1,7 @@
 package main
 
 import (
+	"errors"
 	"reflect"
 
 	ucfg "github.com/elastic/go-ucfg"
@@ -14,6 +15,16 @@ type IfLimits struct {
 	Max  int    `config:"max" validate:"min=1"`
 	Name string `config:"name"`
 }
+
+// Validate (value receiver): a held IfLimits named "bad" is rejected
+func (l IfLimits) Validate() error {
+	if l.Name == "bad" {
+		return errBadName
+	}
+	return nil
+}
+
+var errBadName = errors.New("name is bad")
 
 type ifTarget struct {
 	M map[string]interface{} `config:"m"`
@@ -34,6 +45,9 @@ func buildHeld(v interface{}) interface{} {
 		return buildValue(p)
 	}
 	l := IfLimits{Max: numInt(m["max"], 0), Name: "pre"}
+	if n, ok := m["name"].(string); ok {
+		l.Name = n
+	}
 	if boolD(m, "ptr", false) {
 		return &l
 	}
@@ -78,7 +92,7 @@ func kIfaceHeld(c J) interface{} {
 			}
 		case reflect.Struct:
 			if l, ok := v.Interface().(IfLimits); ok {
-				if l.Max < 1 {
+				if l.Max < 1 || l.Validate() != nil {
 					bad = append(bad, path)
 				}
 				return
